@@ -367,6 +367,11 @@ def called_names(fn_node):
                 out.add(f.attr)
             elif isinstance(f, ast.Name):
                 out.add(f.id)
+        elif isinstance(n, ast.Attribute) and isinstance(n.ctx, ast.Load) and isinstance(n.value, ast.Name) and \
+                n.value.id in ('np', 'numpy', 'linalg', 'ndimage', 'special', 'scipy'):
+            # a kernel picked first and called through a local name (`pick = np.nanmin if .. else np.min; pick(a)`) is used
+            # by the function all the same
+            out.add(n.attr)
     return out
 
 
